@@ -101,10 +101,13 @@ def _observe_cpython(case, top, mods):
                 value = ns[name].__defaults__[0]
             elif what == "base":
                 value = ns[name].__bases__[0]
+            elif what == "strcall":
+                out[(name, what)] = ("nostatic", site["suffix"])
+                continue
             elif what.startswith("deco"):
                 k = int(what[4:])
-                tags = ns[name]._decos  # application order: bottom-up
-                tag = tags[len(st_["decos"]) - 1 - k]
+                tags = ns[name]._decos  # application order: bottom-up; the last len(decos) entries are this object's
+                tag = tags[-1 - k]
                 path, serial = tag.rsplit("#", 1)
                 out[(name, what)] = ("object", {"paths": {path}, "kind": "function", "doc": tag})
                 continue
@@ -123,7 +126,7 @@ def _observe_cpython(case, top, mods):
 
 
 def _griffe_expr(gobj, st_, what):
-    if what in ("ann", "str"):
+    if what in ("ann", "str", "strcall"):
         return gobj.annotation
     if what == "val":
         return gobj.value
@@ -185,6 +188,25 @@ def check_case(case) -> list[Fail]:
                     cp = call("total", lambda d=gobj.decorators[int(what[4:])]: d.callable_path, what=f"callable_path of {where}")
                     if cp != gpath:
                         fails.append(Fail("decorator", "callable-path", f"{where}: callable_path={norm(cp)!r}, canonical path of the expression={norm(gpath)!r}\n{src_text()}", detail))
+                if exp[0] == "nostatic":
+                    # attribute segments after a call / subscript root have no static binding: the chain comes back as
+                    # written (what the unchanged tree does) or relative to the root's own canonical path - never as a
+                    # path of something the enclosing scopes happen to bind under the same name
+                    accept = {exp[1]}
+                    if isinstance(gexpr, griffe.ExprAttribute) and isinstance(gexpr.values[0], griffe.Expr):
+                        rootp = call("total", lambda e=gexpr.values[0]: e.canonical_path, what=f"canonical_path of the root of {where}")
+                        accept.add(f"{rootp}.{exp[1]}")
+                    if gpath not in accept:
+                        fails.append(
+                            Fail(
+                                "unchanged",
+                                "attribute-of-call-resolved",
+                                f"{where}: the attribute segments hang off a call/subscript result (no static binding), Griffe returns "
+                                f"{norm(gpath)!r}; expected one of {norm(sorted(accept))}\n{src_text()}",
+                                detail,
+                            )
+                        )
+                    continue
                 if exp[0] in ("builtin", "unknown"):
                     if gpath != text:
                         fails.append(
@@ -264,7 +286,11 @@ def _known_order(case, fail: Fail) -> bool:
     return fail.clause in ("resolves", "unchanged", "justified") and _label(case, fail) == S.SLUG_ORDER
 
 
-KNOWN = {S.SLUG_OUTER: _known_outer, S.SLUG_ORDER: _known_order}
+def _known_pkg(case, fail: Fail) -> bool:
+    return fail.clause in ("resolves", "unchanged", "justified") and _label(case, fail) == S.SLUG_PKG
+
+
+KNOWN = {S.SLUG_OUTER: _known_outer, S.SLUG_ORDER: _known_order, S.SLUG_PKG: _known_pkg}
 
 
 # ------------------------------------------------------------------------------------------------ search
